@@ -168,7 +168,23 @@ def rule3_publish(ctx, views):
                 ctx.ob('C02.3', name + ': slot index matches published index', ok2,
                        'the slot written is exactly the one the new index value exposes', loc=s.loc,
                        detail='slot %s ; index %s' % (affine_str(sa), affine_str(ia)))
-    ctx.floor('C02.3', 8)
+    # trypass reports success exactly when it inserted
+    f = ctx.need_fn(views['myth_queue_trypass'], 'myth_queue_trypass')
+    ins_st = [st for st, ld, d in index_updates(f, BASE) if d == -1]
+    for val, anchor in ret_cases(f):
+        k = const_int(val)
+        if k is None:
+            ctx.ob('C02.3', 'myth_queue_trypass: constant results', False, 'result is 0 or 1 per path', loc=anchor.loc, detail=describe(f, val))
+        elif k != 0:
+            ctx.ob('C02.3', 'myth_queue_trypass: success only after inserting', bool(ins_st) and
+                   not reaches_point(f, f.entry_inst(), anchor, blocked=ins_st, include_start=True),
+                   'a non-zero result is returned only on paths that stored the thread and moved base (otherwise the passed '
+                   'thread is lost: the caller believes it was handed over)', loc=anchor.loc)
+        else:
+            ctx.ob('C02.3', 'myth_queue_trypass: failure only without inserting', not any(reaches_point(f, st, anchor) for st in ins_st),
+                   'zero is returned only on paths that did not insert (otherwise the caller retries and the thread is queued twice)',
+                   loc=anchor.loc)
+    ctx.floor('C02.3', 10)
 
 
 def rule4_rollback(ctx, views):
@@ -440,7 +456,32 @@ def rule7_recentre(ctx, views):
                         ok = True
                 ctx.ob('C02.7', '%s: %s shifted by the same off' % (name, fld.split('.')[1]), ok,
                        'the index moves by exactly the offset the slots were moved by', loc=c.loc)
-    ctx.floor('C02.7', 10)
+    # after re-centring, push must use the shifted top (re-read), not the index it read before the shift
+    f = ctx.need_fn(views['myth_queue_push'], 'myth_queue_push')
+    mm = [c for c in f.calls() if c.callee and c.callee.startswith('llvm.memmove')]
+    th = f.param_named('th')
+    slots = [s for s in f.order if s.op == 'store' and same_value(f, s.ops[0], th)]
+    for s_ in slots:
+        for c in mm:
+            shifted = [st for st in f.stores_to(TOP) if st in f.reachable_from(c)]
+            idx_loads = [f.insts[k] for k in affine(f, s_.ops[1]) if k in f.insts and f.insts[k].op == 'load' and f.field(f.insts[k]) == TOP]
+            idx_loads += [f.insts[k2] for k in affine(f, s_.ops[1]) if k in f.insts and f.insts[k].op == 'phi'
+                          for k2 in f.sources(k) if k2 in f.insts and f.insts[k2].op == 'load' and f.field(f.insts[k2]) == TOP]
+            # on paths through the memmove the index must come from a load executed after the shift of top
+            fresh = [l for l in idx_loads if any(l in f.reachable_from(st) for st in shifted)]
+            phis = [f.insts[k] for k in affine(f, s_.ops[1]) if k in f.insts and f.insts[k].op == 'phi']
+            ok = bool(fresh)
+            for ph in phis:
+                for val, b in ph.d['incoming']:
+                    blk_last = f.blocks[b].insts[-1]
+                    if blk_last in f.reachable_from(c) or blk_last.block is c.block:
+                        srcs = [f.insts[k] for k in f.sources(val) if k in f.insts]
+                        if not srcs or not all(x in fresh for x in srcs):
+                            ok = False
+            ctx.ob('C02.7', 'myth_queue_push: slot index re-read after re-centring', ok,
+                   'after the slots were moved the new element goes to the shifted top, not to the index read before the shift '
+                   '(which is the array size: one past the end)', loc=s_.loc)
+    ctx.floor('C02.7', 11)
 
 
 def run(ctx):
@@ -512,6 +553,11 @@ MUTANTS = [
      'edits': [(SCHED, "    next->env = env;\n    //Switch to the next thread\n    myth_set_context_withcall(&next->context, myth_entry_point_1,", "    //Switch to the next thread\n    myth_set_context_withcall(&next->context, myth_entry_point_1,")]},
     {'name': 'join resumes a popped thread without rebinding its env', 'expect': 'C02.8',
      'edits': [(SCHED, "    next->env=env;\n    //Switch to next runnable thread", "    //Switch to next runnable thread")]},
+    {'name': 'trypass reports success when the queue lock was busy (seed C02/m3)', 'expect': 'C02.3',
+     'edits': [(WSQ, "  int ret = 1;\n  if (!myth_wsqueue_lock_trylock(&q->lock)) return 0;\n  if (q->base == 0){\n    ret = 0;\n  }\n  else{", "  int ret = 1;\n  if (!myth_wsqueue_lock_trylock(&q->lock)) goto out;\n  if (q->base == 0){\n    ret = 0;\n  }\n  else{"),
+               (WSQ, "  myth_wsqueue_lock_unlock(&q->lock);\n#if USE_LOCK || USE_LOCK_TRYPASS\n  myth_spin_unlock_body(&q->m_lock);\n#endif\n  return ret;\n}\n\nstatic inline void myth_queue_pass", "  myth_wsqueue_lock_unlock(&q->lock);\n out:\n  return ret;\n}\n\nstatic inline void myth_queue_pass")]},
+    {'name': 'push uses the stale top after re-centring (seed C02/m2)', 'expect': 'C02.7',
+     'edits': [(WSQ, "    t = q->top;\n    myth_assert(t < q->size);\n    myth_wsqueue_lock_unlock(&q->lock);", "    myth_assert(q->top < q->size);\n    myth_wsqueue_lock_unlock(&q->lock);")]},
     {'name': 'push re-centre shifts base by a different amount', 'expect': 'C02.7',
      'edits': [(WSQ, "      q->top += offset;\n      q->base += offset;\n    }\n    t = q->top;", "      q->top += offset;\n      q->base += offset + 1;\n    }\n    t = q->top;")]},
     {'name': 'put re-centre moves one slot too few', 'expect': 'C02.7',
